@@ -32,6 +32,12 @@ func main() {
 		i, _ := strconv.Atoi(os.Args[4])
 		n, _ := strconv.Atoi(os.Args[5])
 		engine.WorkerMain(os.Args[2], os.Args[3], i, n, os.Args[6])
+	case "c18first":
+		if len(os.Args) < 3 {
+			usage()
+		}
+		oi, _ := strconv.Atoi(os.Args[2])
+		os.Exit(checks.C18FirstUseMain(oi))
 	case "racepass":
 		if len(os.Args) < 4 {
 			usage()
